@@ -33,12 +33,13 @@ Obs(e) == [stm |-> e.stm, own |-> Own(e), inc |-> Inc(e), mtg |-> Mtg(e), budget
 GoChecks(e) ==
   IF Has(e, "panic") \/ ~Has(e, "budget") THEN [C12_parser_survives_and_reaches_the_search |-> FALSE]
   ELSE [H_side |-> e.stm = stm,
-        C12_fits_own_clock |-> FitsClock(Own(e), e.budget),
+        \* (a negative clock is an expired clock: the most lenient reading)
+        C12_fits_own_clock |-> FitsClock(IF Own(e) < 0 THEN 0 ELSE Own(e), e.budget),
         C12_own_clock_only |-> \A x \in memo : (x.stm = e.stm /\ x.own = Own(e) /\ x.inc = Inc(e) /\ x.mtg = Mtg(e)) => x.budget = e.budget]
 TGo == /\ IsEvent("go")
        /\ \A k \in DOMAIN GoChecks(Rec[l]) : GoChecks(Rec[l])[k]
        /\ memo' = memo \cup {Obs(Rec[l])}
-       /\ (IF Rec[l].budget = ModelBudget(Own(Rec[l]), Inc(Rec[l])) THEN TRUE ELSE PrintT(<<"DRIFT", l, Rec[l].text, Rec[l].budget>>))
+       /\ (IF Rec[l].budget = ModelBudget(Max2(Own(Rec[l]), 0), Max2(Inc(Rec[l]), 0)) THEN TRUE ELSE PrintT(<<"DRIFT", l, Rec[l].text, Rec[l].budget>>))
        /\ UNCHANGED stm
 
 TNext == TSide \/ TGo
